@@ -340,6 +340,44 @@ def run_operators(res: Result, dim):
                     res.nontrivial += 1
 
 
+def run_operator_dimension(res: Result, dim):
+    """binary operators between operands of different dimension, on all 16 ordered backend pairings: an operator stands for its
+    method, so where the method raises TypeError (no like() conversion) the operator must raise too, never return a value"""
+    forms = {"+": (lambda a, b: a + b, lambda a, b: a.add(b)), "-": (lambda a, b: a - b, lambda a, b: a.subtract(b)), "@": (lambda a, b: a @ b, lambda a, b: a.dot(b)),
+             "==": (lambda a, b: a == b, lambda a, b: a.equal(b)), "!=": (lambda a, b: a != b, lambda a, b: a.not_equal(b))}
+    for dimB in (2, 3, 4):
+        if dimB == dim:
+            continue
+        for ba, bb in itertools.product(BK, BK):
+            for fa, fb in (("generic", "generic"), ("momentum", "generic"), ("generic", "momentum")):
+                va, vb = operand(ba, dim, L.CART[dim], fa, "a"), operand(bb, dimB, L.SYSTEMS[dimB][-1], fb, "b")
+                for name, (f, g) in forms.items():
+                    res.states += 1
+                    res.transitions += 2
+                    res.evaluations += 1
+                    case = {"op": "__operators__", "operator_dimension": name, "dimA": dim, "dimB": dimB, "ba": ba, "bb": bb, "fa": fa, "fb": fb}
+                    cls = f"operator_dimension|{name}|{dim}Dx{dimB}D|{ba}x{bb}"
+                    try:
+                        g(va, vb)
+                        res.violation(cls + "|method_accepts", f"method form of {name} accepted a {dim}D and a {dimB}D operand", case)
+                        continue
+                    except TypeError:
+                        pass
+                    except Exception as e:  # noqa: BLE001
+                        res.count(f"method_raises_{type(e).__name__}_for_dimension_mismatch")
+                        continue
+                    res.traces += 1
+                    try:
+                        o = f(va, vb)
+                    except Exception as e:  # noqa: BLE001
+                        if isinstance(e, TypeError):
+                            res.nontrivial += 1
+                        else:
+                            res.count(f"operator_raises_{type(e).__name__}_for_dimension_mismatch")
+                        continue
+                    res.violation(cls + "|returns", f"operator {name} between a {dim}D {ba} and a {dimB}D {bb} vector returned {describe(o)}; the method form raises TypeError", case)
+
+
 def run_keyword_forms(res: Result, dim):
     """every argument passed by its documented name (in reverse order) gives the same value and type as the positional call"""
     from ..catalogue import KWARGS, kwcall
@@ -392,6 +430,7 @@ def run_shard(shard, tier):
     res = Result()
     if shard["op"] == "__operators__":
         run_operators(res, shard["dimA"])
+        run_operator_dimension(res, shard["dimA"])
         run_keyword_forms(res, shard["dimA"])
         res.sample({"operators": "+ - * / @ == != neg pos abs ** (2, 3, 0.5, -1), NumPy-scalar / 0-d / array factors on either side; keyword forms of every method", "dim": shard["dimA"], "backend_pairings": 16})
         return res
@@ -410,10 +449,13 @@ def finalize(total, tier, complete):
 
 def replay(case):
     res = Result()
-    if case["op"] == "__operators__" and case.get("keyword_form"):
-        run_keyword_forms(res, case["dimA"])
-    elif case["op"] == "__operators__":
-        run_operators(res, case["dimA"])
+    if case["op"] == "__operators__":
+        if case.get("keyword_form"):
+            run_keyword_forms(res, case["dimA"])
+        elif case.get("operator_dimension"):
+            run_operator_dimension(res, case["dimA"])
+        else:
+            run_operators(res, case["dimA"])
         return res
     if case.get("like"):
         run_op(res, BY_KEY[case["op"]], case["dimA"], case["dimB"], "quick")
